@@ -11,7 +11,7 @@ CFG = dict(
           "reply that exists nowhere). Both models are tied lock-step to the real code; the rig adds the mutex-deadlock watchdog.",
     props="Props/C11.v",
     theorems=["C11_client_hold_live", "C11_probe", "C11_client_all_routed", "C11_teardown_never_stuck", "C11_no_defer_at_rest",
-              "C11_server_held", "C11_server_returned", "C11_sys_probe", "C11_server_reply_written", "C11_server_probe_completes"],
+              "C11_server_held", "C11_server_returned", "C11_sys_probe", "C11_server_reply_written", "C11_server_probe_completes", "C11_sys_probe_closed"],
     imports=["Model.Client", "Check.ClientC", "Model.Protocol", "Check.CwC", "Check.C11c"],
     case_type="cwcase", find_bad_from="find_bad_from", go_tags="cw",
     rigs=[dict(test="TestC11", timeout_quick=600, timeout_thorough=2400)],
